@@ -1,7 +1,7 @@
 """Per-property metadata used by ./check for evidence files and MANIFEST.json."""
 
 HOOK_COMMITS = []
-FIX_COMMITS = ['0a1810c', 'a823fe8', '611b765', '43d434c', 'bd77cd5']
+FIX_COMMITS = ['0a1810c', 'a823fe8', '611b765', '43d434c', 'bd77cd5', '75ae538', '463f78f']
 
 REAL = ["nhooyr.io/websocket (all non-js code, both endpoints where libpair)", "bufio", "compress/flate", "context", "time (fake clock from testing/synctest)"]
 STUB = ["transport (simrt.simnet)", "handshake plumbing (fake RoundTripper / hijacker, no bytes on the wire)"]
@@ -50,6 +50,16 @@ META = {
         technique="deterministic simulation: seeded schedule of concurrent API calls + simulated transport, wire-level reference-decoder oracle",
         design_ref="DESIGN.md 6 C02",
         rule="run = one tape: (role, library mode, negotiated extension parameters, threshold, 1-3 writers x 1-4 messages with boundary-biased sizes and chunk plans, 0-2 pings, Close code/reason and early/late placement, pipe capacity and write chunking, schedule). Non-trivial = every run (at least one message is written); distinct = distinct event-log SHA-256.",
+        real=REAL, stub=STUB + RAW, assumptions=COMMON_ASSUME,
+    ),
+    "C09": dict(
+        level="fault_enumeration",
+        level_text="On the fake clock of a synctest bubble, one real endpoint is put into each of 7 local states (idle, reader blocked, message half read inside/at the end of a frame, CloseRead active, writer blocked on a full pipe, Ping waiting) and then calls Close or CloseNow (or lets CloseRead close by itself) against each of 10 scripted adversaries: silent, stall after byte k of a data frame with a 2/4/10-byte length form or of a Close frame for EVERY k (thorough) / a stratified subset (quick), endless data frames, a 2^62-byte frame streamed forever, a peer that never reads, half-close, Close echo after 0/4.9/5.1 s. Measured in simulated time: Close <= 11 s, CloseNow <= 1 s, every blocked call back within 1 s of that, CloseRead's context cancelled within 1 s of the transport being closed. The enumerated product is complete in the thorough tier; schedules on top of it are sampled.",
+        level_note="The scheduler adds no simulated time; 1 s of slack is not an implementation constant (observed values are 0). Trusts testing/synctest's fake clock.",
+        technique="deterministic simulation on a fake clock with exhaustive placement of the peer fault (stall offset x adversary x local state x call)",
+        design_ref="DESIGN.md 6 C09",
+        rule="enumerated: forced tape prefix (role, adversary, stall offset k / echo delay, local state, call); random part draws the same dimensions plus compression, a delay before the call and scheduler stickiness. Non-trivial = every run (an adversary is always active); distinct = distinct event-log SHA-256.",
+        exhaustive="adversary x stall offset x local state x call x role (thorough tier)",
         real=REAL, stub=STUB + RAW, assumptions=COMMON_ASSUME,
     ),
 }
